@@ -44,6 +44,13 @@ CHECKS["C11"] = {
     "note": TRUST + " typenum's Prod/Quot semantics are trusted.",
 }
 
+CHECKS["C01"] = {
+    "technique": "item-fact rules on ADT reprs / ArrayLength impls (layout induction premises) + compiler layout_of oracle over a generated type lattice",
+    "text": "Static: (S) the premises of the layout induction over N's binary digits are checked on the type-checked crate's item facts (transparent wrapper over N::ArrayType<T>; [T; 0] base; even/odd impls map to repr(C) nodes made of exactly two children, `parity` trailing T and PhantomData only; exactly three ArrayLength impls; sealed trait) - a universal argument in T and N; (L) rustc's layout_of query is evaluated inside the driver for GenericArray<E, N> over the property's lattice (quick: 8 element layouts x (0..=1024 + 2^k, 2^k-1, 10^k up to 2^62); thorough: every (size 0..=64, align 1..=64) pair plus padded/packed/nested/ZST types, ~174k probes, repeated with -Zrandomize-layout), checking size = N*size_of T, align = align_of T and, node by node, that element-bearing fields sit at exactly the cumulative element offsets (no padding/overlap); types >= 2^61 bytes cannot exist and are counted separately, never as a pass; (T) const_transmute's union read is dominated by its size-equality guard. No code of the crate is executed: layouts are a compiler query over types.",
+    "design_ref": "DESIGN.md §3 C01",
+    "note": "Trusted: rustc's layout computation and the documented repr(C)/repr(transparent) algorithms; typenum's USIZE recursion. Element types outside the lattice are covered by rule S only.",
+}
+
 NOT_APPLICABLE = {}
 
 PENDING = "check under construction in this round; see DESIGN.md"
